@@ -192,7 +192,8 @@ func (w *world) checkBacked(p gcrypto.CommonMessageSignatureProof, msg []byte, t
 }
 
 // symSig is an offered signature: form 0 = 48 bytes, compressed flag, symbolic non-zero group
-// element (verifying, equal to a held one, an aggregate, or garbage: the solver decides);
+// element and symbolic torsion tag (verifying, equal to a held one, an aggregate, a valid
+// signature shifted by a small-order point, or garbage: the solver decides);
 // form 1 = 5 bytes (does not decompress); form 2 (thorough) = 48 bytes with symbolic flag
 // byte and a symbolic padding byte.
 func symSig(name string) []byte {
@@ -215,6 +216,7 @@ func symSig(name string) []byte {
 	b := make([]byte, blst.BLST_P1_COMPRESS_BYTES)
 	b[0] = 0x80
 	putU64(b[1:9], v)
+	b[9] = verifrt.U8(name + "-torsion") // != 0: on the curve but outside the prime-order subgroup
 	return b
 }
 
